@@ -81,6 +81,59 @@ func mapLiteralStrings(v ssa.Value) ([]string, bool) {
 	return out, true
 }
 
+// stylerLiterals: the Styler composite literals written in f, each with its string fields
+// (unset ones are the empty sequence) and, when its colour table is a literal too, the codes.
+type stylerLit struct {
+	fields map[string]string
+	codes  []string
+}
+
+func stylerLiterals(f *ssa.Function) []stylerLit {
+	var out []stylerLit
+	eachInstr(f, func(in ssa.Instruction) {
+		a, isA := in.(*ssa.Alloc)
+		if !isA || typeNameOf(a.Type()) != "Styler" {
+			return
+		}
+		st, isS := a.Type().Underlying().(*types.Pointer).Elem().Underlying().(*types.Struct)
+		if !isS {
+			return
+		}
+		lit := stylerLit{fields: map[string]string{}}
+		for i := 0; i < st.NumFields(); i++ {
+			if isStringType(st.Field(i).Type()) {
+				lit.fields[st.Field(i).Name()] = ""
+			}
+		}
+		nStores := 0
+		for _, ref := range *a.Referrers() {
+			fa, isFA := ref.(*ssa.FieldAddr)
+			if !isFA {
+				continue
+			}
+			for _, r2 := range *fa.Referrers() {
+				sto, isSt := r2.(*ssa.Store)
+				if !isSt || sto.Addr != ssa.Value(fa) {
+					continue
+				}
+				nStores++
+				if s, isStr := constString(sto.Val); isStr {
+					lit.fields[fieldName(fa)] = s
+				} else if isStringType(sto.Val.Type()) {
+					lit.fields[fieldName(fa)] = "%non-constant%" // rejected by the check (contains a %)
+				} else if codes, ok := mapLiteralStrings(sto.Val); ok {
+					lit.codes = codes
+				}
+			}
+		}
+		if nStores == 0 && len(*a.Referrers()) > 0 {
+			// the zero literal Styler{}: still a theme (no_colour), all fields empty
+		}
+		out = append(out, lit)
+	})
+	return out
+}
+
 func ruleP18Sgr(p *Prog, r *Report) {
 	const rule = "P18-sgr"
 	g := p.global("klog/app/cli/terminalformat", "ansiSequencePattern")
@@ -139,12 +192,38 @@ func ruleP18Sgr(p *Prog, r *Report) {
 		return
 	}
 	nThemes := 0
-	// direct literals in NewStyler (no_colour)
-	if fl := stylerLiteralFields(newStyler); len(fl) > 0 {
-		nThemes++
+	// a theme: every string field it carries is a sequence the styler may emit — except the three
+	// that are only parts of the colour sequences, which are checked put together with every
+	// colour code of the theme's table
+	parts := map[string]bool{"foregroundPrefix": true, "backgroundPrefix": true, "colourSuffix": true}
+	evalTheme := func(theme string, fl map[string]string, codes []string, pos string) {
 		for _, k := range sortedKeys(fl) {
-			check("NewStyler:"+k, fl[k], p.pos(newStyler.Pos()))
+			if !parts[k] || len(codes) == 0 {
+				check(theme+":"+k, fl[k], pos)
+			}
 		}
+		seen := map[string]bool{}
+		for _, code := range codes {
+			if seen[code] {
+				continue
+			}
+			seen[code] = true
+			check(fmt.Sprintf("%s:fg:%s", theme, code), fl["foregroundPrefix"]+code+fl["colourSuffix"], pos)
+			check(fmt.Sprintf("%s:bg:%s", theme, code), fl["backgroundPrefix"]+code+fl["colourSuffix"], pos)
+		}
+	}
+	// themes written out in NewStyler itself (no_colour; a theme whose constructor was inlined)
+	lits := stylerLiterals(newStyler)
+	for i, lit := range lits {
+		nThemes++
+		name := "NewStyler"
+		if len(lits) > 1 {
+			name = fmt.Sprintf("NewStyler#%d", i+1)
+		}
+		if len(lits) == 1 || len(lit.codes) == 0 {
+			name = "NewStyler"
+		}
+		evalTheme(name, lit.fields, lit.codes, p.pos(newStyler.Pos()))
 	}
 	// constructors called from NewStyler with a table
 	eachInstr(newStyler, func(in ssa.Instruction) {
@@ -168,25 +247,10 @@ func ruleP18Sgr(p *Prog, r *Report) {
 		}
 		nThemes++
 		theme := fmt.Sprintf("%s@%s", fnBase(ctor), p.instrPos(c))
-		// every string field a theme carries is a sequence the styler may emit — except the three
-		// that are only parts of the colour sequences checked below. (A field that is added later,
-		// say a screen-control sequence that only the coloured themes have, is held to the same
-		// standard: what a theme emits and the unstyled output lacks must be removable.)
-		parts := map[string]bool{"foregroundPrefix": true, "backgroundPrefix": true, "colourSuffix": true}
-		for _, k := range sortedKeys(fl) {
-			if !parts[k] {
-				check(theme+":"+k, fl[k], p.instrPos(c))
-			}
-		}
-		seen := map[string]bool{}
-		for _, code := range codes {
-			if seen[code] {
-				continue
-			}
-			seen[code] = true
-			check(fmt.Sprintf("%s:fg:%s", theme, code), fl["foregroundPrefix"]+code+fl["colourSuffix"], p.instrPos(c))
-			check(fmt.Sprintf("%s:bg:%s", theme, code), fl["backgroundPrefix"]+code+fl["colourSuffix"], p.instrPos(c))
-		}
+		// (A field that is added later, say a screen-control sequence that only the coloured
+		// themes have, is held to the same standard: what a theme emits and the unstyled output
+		// lacks must be removable.)
+		evalTheme(theme, fl, codes, p.instrPos(c))
 	})
 	if nThemes < 4 {
 		r.undecided(rule, "floor:themes", "-", "evaluated %d themes, expected 4 (no_colour, dark, light, basic)", nThemes)
